@@ -11,7 +11,7 @@ You should have received a copy of the GNU Lesser General Public License along w
 If not, see <https://www.gnu.org/licenses/>.
 """
 from spil.conf import extension_alias  # type: ignore # from sid conf
-from spil.conf import sip, ors
+from spil.conf import sip, ors, leaf_keys
 from spil.sid.core import query_helper
 
 
@@ -77,7 +77,6 @@ def extensions(sid):
     >>> extensions('bla/s/bla/bla/**/movie, ma?ext=maya, mov')
     'bla/s/bla/bla/**/avi,ma,mov,mp4?ext=ma,mb,mov'
 
-    #FIXME: "ext" is hard coded.
     """
 
     sid = str(sid)
@@ -95,8 +94,9 @@ def extensions(sid):
     # query part
     if query:
         query_dict = query_helper.to_dict(query)
-        if query_dict.get("ext"):  # FIXME: "ext" is hard coded.
-            query_dict["ext"] = handle_extension(query_dict.get("ext"))
+        for key in set(leaf_keys.values()):  # the extension key is the configured leaf key (typically "ext")
+            if query_dict.get(key):
+                query_dict[key] = handle_extension(query_dict.get(key))
         query = query_helper.to_string(query_dict)
 
     return sip.join(newsid) + ("?" + query if query else "")
